@@ -1,4 +1,7 @@
 import ArimModel.Tfm
+import ArimProofs.Lemmas.Tfm
+import Mathlib.Data.Rat.Floor
+import Mathlib.Tactic.NormNum
 /-! # C12 — TFM pipelines: contact = straight rays, HMC = FMC, reciprocal views coincide -/
 namespace Arim.C12
 open Arim.Das Arim.Tfm Arim.Frame
@@ -22,5 +25,439 @@ theorem view_is_das (ops : Ops α) (d : Data α β) (pairs : List Pair) (G : Nat
     tfmForView ops d pairs G n timesTx timesRx t0 dt it fill pt =
       dasMean d fill pairs.length (fun k =>
         termNoAmp ops d (frameProblem pairs G n (fun p e => timesTx e p) (fun p e => timesRx e p) t0 dt) it pt k) := rfl
+
+/-! ## Images over an ordered field
+
+From here on the time scalar and the samples live in the same linearly ordered field `K`, the
+sample operations are the field operations (`stdData`). The numerical primitives `ops` stay
+arbitrary unless stated (`stdOps sinc` = floor / round-half-even of a `FloorRing`), and the
+interpolation `it` is arbitrary (nearest, linear and Lanczos). -/
+section Field
+variable {K : Type} [Field K] [LinearOrder K]
+
+omit [LinearOrder K] in
+/-- **The mean aggregation is a finite sum**: the left fold of the kernel over the timetraces
+is the `Finset` sum of the delayed samples (fill value where the lookup is out of window). -/
+theorem dasMean_sum (fill : K) (N : Nat) (term : Nat → Option K) :
+    dasMean stdData fill N term = (∑ k ∈ Finset.range N, (term k).getD fill) / (N : K) :=
+  dasMean_eq_sum fill N term
+
+/-! ### 1. The term of a timetrace depends only on its pair; contact terms are reciprocal -/
+
+/-- the `k`-th delayed sample of a frame is a function (`pairTerm`) of the pair `(tx, rx)` of
+the `k`-th timetrace only -/
+theorem term_of_pair {β : Type} (ops : Ops K) (d : Data K β) (L : List Pair)
+    (G : Nat → Nat → Nat → β) (ns : Nat) (ltTx ltRx : Nat → Nat → K) (t0 dt : K) (it : Interp)
+    (pt k : Nat) :
+    termNoAmp ops d (frameProblem L G ns ltTx ltRx t0 dt) it pt k =
+      pairTerm ops d G ns ltTx ltRx t0 dt it pt (L.getD k (0, 0)) :=
+  term_frameProblem ops d L G ns ltTx ltRx t0 dt it pt k
+
+/-- **Reciprocity of the contact terms**: same lookup table for transmit and receive and
+reciprocal data: two timetraces of (possibly different) frames whose pairs are mirror of each
+other have the same delayed sample, at every grid point and for every interpolation. -/
+theorem term_swap {β : Type} (ops : Ops K) (d : Data K β) (L L' : List Pair)
+    (G : Nat → Nat → Nat → β) (hG : ∀ i j s, G i j s = G j i s) (ns : Nat)
+    (lk : Nat → Nat → K) (t0 dt : K) (it : Interp) (pt k k' : Nat)
+    (hkk : L.getD k (0, 0) = swap (L'.getD k' (0, 0))) :
+    termNoAmp ops d (frameProblem L G ns lk lk t0 dt) it pt k =
+      termNoAmp ops d (frameProblem L' G ns lk lk t0 dt) it pt k' := by
+  rw [term_of_pair, term_of_pair, hkk, pairTerm_swap ops d G hG]
+
+/-- the same on pairs: the term of `(i, j)` is the term of `(j, i)` -/
+theorem pairTerm_comm {β : Type} (ops : Ops K) (d : Data K β)
+    (G : Nat → Nat → Nat → β) (hG : ∀ i j s, G i j s = G j i s) (ns : Nat)
+    (lk : Nat → Nat → K) (t0 dt : K) (it : Interp) (pt i j : Nat) :
+    pairTerm ops d G ns lk lk t0 dt it pt (i, j) = pairTerm ops d G ns lk lk t0 dt it pt (j, i) :=
+  pairTerm_swap ops d G hG ns lk lk t0 dt it pt (j, i)
+
+/-! ### 3. Reciprocal views coincide -/
+
+/-- **Reciprocal views coincide**: on a duplicate-free frame closed under `tx ↔ rx` with
+reciprocal data, exchanging the transmit and receive ray-tracing tables (the view `AB` against
+the view `BA`) gives the same image, for every interpolation and every fill value. -/
+theorem reciprocal_views_coincide (ops : Ops K) (L : List Pair) (hnd : L.Nodup)
+    (hcl : ∀ p ∈ L, swap p ∈ L) (G : Nat → Nat → Nat → K) (hG : ∀ i j s, G i j s = G j i s)
+    (ns : Nat) (A B : Nat → Nat → K) (t0 dt : K) (it : Interp) (fill : K) (pt : Nat) :
+    tfmForView ops stdData L G ns A B t0 dt it fill pt =
+      tfmForView ops stdData L G ns B A t0 dt it fill pt := by
+  unfold tfmForView
+  rw [das_frame_eq_sum, das_frame_eq_sum]
+  congr 1
+  have h := ((map_swap_perm L hnd hcl).map (fun p =>
+    (pairTerm ops stdData G ns (fun p e => A e p) (fun p e => B e p) t0 dt it pt p).getD fill)).sum_eq
+  rw [← h, List.map_map]
+  congr 1
+  refine List.map_congr_left (fun p _ => ?_)
+  simp only [Function.comp]
+  rw [pairTerm_swap ops stdData G hG]
+
+/-- the unweighted image depends on the data only through the recorded pairs -/
+theorem das_frame_congr (ops : Ops K) (L : List Pair) (G G' : Nat → Nat → Nat → K)
+    (h : ∀ p ∈ L, G p.1 p.2 = G' p.1 p.2) (ns : Nat)
+    (ltTx ltRx : Nat → Nat → K) (t0 dt : K) (it : Interp) (fill : K) (pt : Nat) :
+    dasNoAmp ops stdData (frameProblem L G ns ltTx ltRx t0 dt) it fill pt =
+      dasNoAmp ops stdData (frameProblem L G' ns ltTx ltRx t0 dt) it fill pt := by
+  rw [das_frame_eq_sum, das_frame_eq_sum]
+  congr 2
+  refine List.map_congr_left (fun p hp => ?_)
+  simp only [pairTerm, h p hp]
+
+/-- the contact image depends on the data only through the recorded pairs -/
+theorem contact_congr (ops : Ops K) (L : List Pair) (G G' : Nat → Nat → Nat → K)
+    (h : ∀ p ∈ L, G p.1 p.2 = G' p.1 p.2) (ns : Nat)
+    (lk : Nat → Nat → K) (t0 dt : K) (it : Interp) (fill : K) (pt : Nat) :
+    contactTfm ops stdData L G ns lk t0 dt it fill pt =
+      contactTfm ops stdData L G' ns lk t0 dt it fill pt := by
+  rw [contact_eq_sum_fill, contact_eq_sum_fill]
+  congr 2
+  refine List.map_congr_left (fun p hp => ?_)
+  simp only [pairTerm, h p hp]
+
+/-- on a frame closed under `tx ↔ rx` (e.g. FMC) all default weights are `1`: the contact image
+is the unweighted delay-and-sum, for every fill value -/
+theorem contact_complete_unweighted (ops : Ops K) (h1 : ops.ofInt 1 = 1) (L : List Pair)
+    (hcl : ∀ p ∈ L, swap p ∈ L) (G : Nat → Nat → Nat → K) (ns : Nat)
+    (lk : Nat → Nat → K) (t0 dt : K) (it : Interp) (fill : K) (pt : Nat) :
+    contactTfm ops stdData L G ns lk t0 dt it fill pt =
+      dasNoAmp ops stdData (frameProblem L G ns lk lk t0 dt) it fill pt := by
+  rw [contact_eq_sum_fill, das_frame_eq_sum]
+  congr 2
+  refine List.map_congr_left (fun p hp => ?_)
+  rw [weightOf_of_closed L hcl p hp]
+  cases pairTerm ops stdData G ns lk lk t0 dt it pt p <;> simp [h1]
+
+end Field
+
+/-! ### 2. Default weights = expansion by reciprocity; HMC = FMC -/
+section Ordered
+variable {K : Type} [Field K] [LinearOrder K] [IsStrictOrderedRing K]
+
+omit [LinearOrder K] [IsStrictOrderedRing K] in
+/-- **Weighted sum = sum over the frame expanded by reciprocity.** For any list `L` of pairs
+(duplicates allowed) and any swap-invariant `T`, the sum over the timetraces of
+`default weight × T(pair)` is the sum of `T` over `L` and the mirrors missing from `L`. -/
+theorem weighted_sum_reciprocity (L : List Pair) (T : Pair → K) (hT : ∀ p, T (swap p) = T p) :
+    ∑ k ∈ Finset.range L.length, ((defaultWeights L).getD k 1 : K) * T (L.getD k (0, 0)) =
+      ((expandPairs L).map T).sum := by
+  rw [← weighted_sum_expand L T hT, ← sum_range_getD L _ (0, 0)]
+  refine Finset.sum_congr rfl (fun k hk => ?_)
+  rw [defaultWeights_getD L k (Finset.mem_range.1 hk)]
+
+omit [IsStrictOrderedRing K] in
+/-- the contact image with default weights is the sum of the per-pair terms over the expanded
+pair list, divided by the number of recorded timetraces -/
+theorem contact_eq_expanded_sum (ops : Ops K) (h1 : ops.ofInt 1 = 1) (h2 : ops.ofInt 2 = 2)
+    (L : List Pair) (G : Nat → Nat → Nat → K) (hG : ∀ i j s, G i j s = G j i s) (ns : Nat)
+    (lk : Nat → Nat → K) (t0 dt : K) (it : Interp) (pt : Nat) :
+    contactTfm ops stdData L G ns lk t0 dt it 0 pt =
+      ((expandPairs L).map (fun p => (pairTerm ops stdData G ns lk lk t0 dt it pt p).getD 0)).sum /
+        (L.length : K) := by
+  rw [contact_eq_sum, ← weighted_sum_expand L _
+    (fun p => by rw [pairTerm_swap ops stdData G hG])]
+  simp only [ofInt_weightOf ops h1 h2]
+
+/-- **Expand, then image.** Imaging (unit weights) the pair list completed by reciprocity gives
+`N / N'` times the default-weighted image of the recorded frame (`N` recorded timetraces, `N'`
+after expansion). No hypothesis on `L`. -/
+theorem expand_then_image (ops : Ops K) (h1 : ops.ofInt 1 = 1) (h2 : ops.ofInt 2 = 2)
+    (L : List Pair) (G : Nat → Nat → Nat → K) (hG : ∀ i j s, G i j s = G j i s) (ns : Nat)
+    (lk : Nat → Nat → K) (t0 dt : K) (it : Interp) (pt : Nat) :
+    ((expandPairs L).length : K) *
+        dasNoAmp ops stdData (frameProblem (expandPairs L) G ns lk lk t0 dt) it 0 pt =
+      (L.length : K) * contactTfm ops stdData L G ns lk t0 dt it 0 pt := by
+  rw [das_frame_eq_sum, length_mul_mean, contact_eq_expanded_sum ops h1 h2 L G hG,
+    length_mul_div]
+  rintro rfl; rfl
+
+/-- the same for any duplicate-free enumeration `L'` of the recorded pairs and their mirrors
+(here `L` must be duplicate-free as well) -/
+theorem expand_then_image_of_mem (ops : Ops K) (h1 : ops.ofInt 1 = 1) (h2 : ops.ofInt 2 = 2)
+    (L L' : List Pair) (hL : L.Nodup) (hL' : L'.Nodup)
+    (hmem : ∀ p, p ∈ L' ↔ (p ∈ L ∨ swap p ∈ L))
+    (G : Nat → Nat → Nat → K) (hG : ∀ i j s, G i j s = G j i s) (ns : Nat)
+    (lk : Nat → Nat → K) (t0 dt : K) (it : Interp) (pt : Nat) :
+    (L'.length : K) * dasNoAmp ops stdData (frameProblem L' G ns lk lk t0 dt) it 0 pt =
+      (L.length : K) * contactTfm ops stdData L G ns lk t0 dt it 0 pt := by
+  rw [← expand_then_image ops h1 h2 L G hG, das_frame_eq_sum, length_mul_mean,
+    das_frame_eq_sum, length_mul_mean]
+  exact ((perm_expandPairs L L' hL hL' hmem).map _).sum_eq
+
+/-- **HMC = FMC.** With reciprocal data and the contact lookup table, the half-matrix image with
+the default weights (1 on the diagonal, 2 off it) is the full-matrix image, up to the ratio of
+the numbers of timetraces (`n (n+1) / 2` against `n²`). Every `n`, every interpolation. -/
+theorem hmc_eq_fmc (ops : Ops K) (h1 : ops.ofInt 1 = 1) (h2 : ops.ofInt 2 = 2) (n : Nat)
+    (G : Nat → Nat → Nat → K) (hG : ∀ i j s, G i j s = G j i s) (ns : Nat)
+    (lookup : Nat → Nat → K) (t0 dt : K) (it : Interp) (pt : Nat) :
+    ((hmc n).length : K) * contactTfm ops stdData (hmc n) G ns lookup t0 dt it 0 pt =
+      ((fmc n).length : K) * contactTfm ops stdData (fmc n) G ns lookup t0 dt it 0 pt := by
+  rw [← expand_then_image_of_mem ops h1 h2 (hmc n) (fmc n) (C15.hmc_nodup n) (C15.fmc_nodup n)
+      (fun p => by simp only [C15.mem_fmc', C15.mem_hmc', swap]; omega) G hG,
+    ← expand_then_image_of_mem ops h1 h2 (fmc n) (fmc n) (C15.fmc_nodup n) (C15.fmc_nodup n)
+      (fun p => by simp only [C15.mem_fmc', swap]; omega) G hG]
+
+omit [Field K] [LinearOrder K] [IsStrictOrderedRing K] in
+/-- FMC: every default weight is `1` -/
+theorem weights_fmc (n k : Nat) (hk : k < (fmc n).length) : (defaultWeights (fmc n)).getD k 1 = 1 := by
+  rw [defaultWeights_getD _ k hk]
+  have hm : (fmc n).getD k (0, 0) ∈ fmc n := by
+    rw [← List.getElem_eq_getD (h := hk)]; exact List.getElem_mem hk
+  exact weightOf_of_closed (fmc n) (fun p hp => by
+    rw [C15.mem_fmc'] at hp ⊢; exact ⟨hp.2, hp.1⟩) _ hm
+
+omit [Field K] [LinearOrder K] [IsStrictOrderedRing K] in
+/-- HMC: the default weight is `1` on the diagonal (`tx = rx`), `2` off it -/
+theorem weights_hmc (n k : Nat) (hk : k < (hmc n).length) :
+    (defaultWeights (hmc n)).getD k 1 =
+      if ((hmc n).getD k (0, 0)).1 = ((hmc n).getD k (0, 0)).2 then 1 else 2 := by
+  rw [defaultWeights_getD _ k hk]
+  have hm : (hmc n).getD k (0, 0) ∈ hmc n := by
+    rw [← List.getElem_eq_getD (h := hk)]; exact List.getElem_mem hk
+  generalize (hmc n).getD k (0, 0) = p at hm
+  rw [C15.mem_hmc'] at hm
+  have hsw : swap p ∈ hmc n ↔ p.1 = p.2 := by
+    rw [C15.mem_hmc']; simp only [swap]; omega
+  simp only [weightOf, hsw]
+
+/-- the timetrace recorded for the pair `(i, j)` in a frame with payloads (zero if none) -/
+def frameData (f : List (TT (Nat → K))) : Nat → Nat → Nat → K :=
+  fun i j => (lookup f (i, j)).getD (fun _ => 0)
+
+/-- **`Frame.expand`, then image.** For a frame `f` with timetraces as payloads, without
+duplicate pair, and reciprocal wherever both a pair and its mirror are recorded: the unweighted
+image of the frame expanded by `expand_frame_assuming_reciprocity` (model `Frame.expand`), times
+its number of timetraces, is the default-weighted contact image of `f` times its number of
+timetraces. -/
+theorem expand_frame_then_image (ops : Ops K) (h1 : ops.ofInt 1 = 1) (h2 : ops.ofInt 2 = 2)
+    (f : List (TT (Nat → K))) (hnd : (pairsOf f).Nodup)
+    (hrec : ∀ p, p ∈ pairsOf f → swap p ∈ pairsOf f → lookup f p = lookup f (swap p))
+    (ns : Nat) (lk : Nat → Nat → K) (t0 dt : K) (it : Interp) (pt : Nat) :
+    ((expand f).length : K) *
+        dasNoAmp ops stdData
+          (frameProblem (pairsOf (expand f)) (frameData (expand f)) ns lk lk t0 dt) it 0 pt =
+      (f.length : K) * contactTfm ops stdData (pairsOf f) (frameData f) ns lk t0 dt it 0 pt := by
+  let Gs : Nat → Nat → Nat → K := fun i j =>
+    (lookup f (i, j)).getD ((lookup f (j, i)).getD (fun _ => 0))
+  have hGs : ∀ i j s, Gs i j s = Gs j i s := by
+    intro i j s
+    show (lookup f (i, j)).getD ((lookup f (j, i)).getD (fun _ => 0)) s =
+      (lookup f (j, i)).getD ((lookup f (i, j)).getD (fun _ => 0)) s
+    cases hij : lookup f (i, j) with
+    | none => cases hji : lookup f (j, i) <;> rfl
+    | some a =>
+      cases hji : lookup f (j, i) with
+      | none => rfl
+      | some b =>
+        have e := hrec (i, j) ((lookup_isSome f _).1 (by rw [hij]; rfl))
+          ((lookup_isSome f _).1 (by show (lookup f (j, i)).isSome; rw [hji]; rfl))
+        rw [hij] at e
+        have e' : lookup f (j, i) = some a := e.symm
+        rw [hji] at e'
+        cases e'; rfl
+  have hf : ∀ p ∈ pairsOf f, frameData f p.1 p.2 = Gs p.1 p.2 := by
+    intro p hp
+    obtain ⟨d, hd⟩ := Option.isSome_iff_exists.1 ((lookup_isSome f p).2 hp)
+    show (lookup f (p.1, p.2)).getD _ = (lookup f (p.1, p.2)).getD _
+    rw [show ((p.1, p.2) : Pair) = p from rfl, hd]; rfl
+  have hE : ∀ p ∈ pairsOf (expand f), frameData (expand f) p.1 p.2 = Gs p.1 p.2 := by
+    intro p hp
+    obtain ⟨t, ht, h1', h2'⟩ := (mem_pairsOf _ _).1 hp
+    have hl := lookup_of_mem (expand f) (C15.expand_pairs_nodup f hnd) t ht
+    rw [h1', h2'] at hl
+    show (lookup (expand f) (p.1, p.2)).getD _ =
+      (lookup f (p.1, p.2)).getD ((lookup f (p.2, p.1)).getD (fun _ => 0))
+    rw [hl]
+    rcases C15.expand_payload f hnd t ht with h | ⟨h, h'⟩
+    · rw [h1', h2'] at h; rw [h]; rfl
+    · rw [h1', h2'] at h h'; rw [h, h']; rfl
+  rw [das_frame_congr ops _ _ Gs hE, contact_congr ops _ _ Gs hf]
+  have := expand_then_image_of_mem ops h1 h2 (pairsOf f) (pairsOf (expand f)) hnd
+    (C15.expand_pairs_nodup f hnd) (C15.expand_pairs_mem f) Gs hGs ns lk t0 dt it pt
+  simpa [pairsOf] using this
+
+/-- `hmc_eq_fmc` for the standard primitives (floor, round-half-even, integer cast) -/
+theorem hmc_eq_fmc_std [FloorRing K] (sinc : K → K) (n : Nat)
+    (G : Nat → Nat → Nat → K) (hG : ∀ i j s, G i j s = G j i s) (ns : Nat)
+    (lookup : Nat → Nat → K) (t0 dt : K) (it : Interp) (pt : Nat) :
+    ((hmc n).length : K) * contactTfm (stdOps sinc) stdData (hmc n) G ns lookup t0 dt it 0 pt =
+      ((fmc n).length : K) * contactTfm (stdOps sinc) stdData (fmc n) G ns lookup t0 dt it 0 pt :=
+  hmc_eq_fmc (stdOps sinc) (by simp) (by simp) n G hG ns lookup t0 dt it pt
+
+/-! ### 4. Spike data focus where they should -/
+
+omit [IsStrictOrderedRing K] in
+/-- on spike data (a unit spike at the nearest-sample index of the arrival time of `pstar`, in
+the window for every timetrace) the image at `pt` is the proportion of timetraces whose
+nearest-sample index at `pt` is the one at `pstar` -/
+theorem spike_image_eq_count (ops : Ops K) (q : Problem K K) (pstar : Nat)
+    (hwin : ∀ k < q.N, 0 ≤ ops.round (locB ops q pstar k) ∧
+      ops.round (locB ops q pstar k) < (q.n : Int)) (pt : Nat) :
+    dasNoAmp ops stdData (spikeProblem ops q pstar) .nearest 0 pt =
+      (((Finset.range q.N).filter (fun k =>
+        ops.round (locB ops q pt k) = ops.round (locB ops q pstar k))).card : K) / (q.N : K) := by
+  unfold dasNoAmp
+  rw [dasMean_eq_sum]
+  show (∑ k ∈ Finset.range q.N, _) / (q.N : K) = _
+  rw [Finset.sum_congr rfl (fun k hk => spike_term ops q pstar pt k (hwin k (Finset.mem_range.1 hk))),
+    Finset.sum_boole]
+
+/-- **Spike focus.** Nearest interpolation, unit weights, fill `0`, at least one timetrace,
+arbitrary lookup tables: if the `k`-th timetrace is a unit spike at the (in-window)
+nearest-sample index of the arrival time of `pstar`, the image is `1` at `pstar` and lies in
+`[0, 1]` everywhere. -/
+theorem spike_focus (ops : Ops K) (q : Problem K K) (pstar : Nat) (hN : 1 ≤ q.N)
+    (hwin : ∀ k < q.N, 0 ≤ ops.round (locB ops q pstar k) ∧
+      ops.round (locB ops q pstar k) < (q.n : Int)) :
+    dasNoAmp ops stdData (spikeProblem ops q pstar) .nearest 0 pstar = 1 ∧
+      ∀ pt, 0 ≤ dasNoAmp ops stdData (spikeProblem ops q pstar) .nearest 0 pt ∧
+        dasNoAmp ops stdData (spikeProblem ops q pstar) .nearest 0 pt ≤ 1 := by
+  have hNpos : (0 : K) < (q.N : K) := by exact_mod_cast hN
+  refine ⟨?_, fun pt => ?_⟩
+  · rw [spike_image_eq_count ops q pstar hwin]
+    simp only [Finset.filter_true_of_mem, implies_true, Finset.card_range]
+    exact div_self hNpos.ne'
+  · rw [spike_image_eq_count ops q pstar hwin]
+    refine ⟨div_nonneg (Nat.cast_nonneg _) hNpos.le, ?_⟩
+    rw [div_le_one hNpos]
+    have := Finset.card_filter_le (Finset.range q.N)
+      (fun k => ops.round (locB ops q pt k) = ops.round (locB ops q pstar k))
+    rw [Finset.card_range] at this
+    exact_mod_cast this
+
+/-- the same with the hypotheses on an arbitrary problem `p` rather than on a constructed one:
+`p.g k` is the spike at the nearest-sample index of `pstar` for every timetrace `k < p.N` -/
+theorem spike_focus_of (ops : Ops K) (p : Problem K K) (pstar : Nat) (hN : 1 ≤ p.N)
+    (hwin : ∀ k < p.N, 0 ≤ ops.round (locB ops p pstar k) ∧
+      ops.round (locB ops p pstar k) < (p.n : Int))
+    (hg : ∀ k < p.N, ∀ s, p.g k s = if s = (ops.round (locB ops p pstar k)).toNat then 1 else 0) :
+    dasNoAmp ops stdData p .nearest 0 pstar = 1 ∧
+      ∀ pt, 0 ≤ dasNoAmp ops stdData p .nearest 0 pt ∧ dasNoAmp ops stdData p .nearest 0 pt ≤ 1 := by
+  have key : ∀ pt, dasNoAmp ops stdData p .nearest 0 pt =
+      dasNoAmp ops stdData (spikeProblem ops p pstar) .nearest 0 pt := by
+    intro pt
+    unfold dasNoAmp
+    rw [dasMean_eq_sum, dasMean_eq_sum]
+    show (∑ k ∈ Finset.range p.N, _) / (p.N : K) = (∑ k ∈ Finset.range p.N, _) / (p.N : K)
+    congr 1
+    refine Finset.sum_congr rfl (fun k hk => ?_)
+    have : p.g k = (spikeProblem ops p pstar).g k := funext (hg k (Finset.mem_range.1 hk))
+    show (interpNearest ops p.n (p.g k) (locB ops p pt k)).getD 0 =
+      (interpNearest ops p.n ((spikeProblem ops p pstar).g k) (locB ops p pt k)).getD 0
+    rw [this]
+  simp only [key]
+  exact spike_focus ops p pstar hN hwin
+
+end Ordered
+
+/-! ### 5. Non-vacuity: concrete rational data, 2 elements, 3 samples -/
+section Examples
+
+/-- reciprocal data on 2 elements, 3 samples: `G i j s = i + j + s/2` -/
+def exG : Nat → Nat → Nat → ℚ := fun i j s => ((i + j : Nat) : ℚ) + (s : ℚ) / 2
+/-- contact lookup table `[point, element]` -/
+def exLk : Nat → Nat → ℚ := fun p e => ((p + e : Nat) : ℚ) / 4
+/-- two different ray-tracing tables `[element, point]` -/
+def exA : Nat → Nat → ℚ := fun e p => ((e + p : Nat) : ℚ) / 4
+def exB : Nat → Nat → ℚ := fun e p => ((2 * e + p : Nat) : ℚ) / 2
+
+theorem exG_symm : ∀ i j s, exG i j s = exG j i s := by
+  intro i j s; simp [exG, add_comm]
+
+theorem hmc2 : hmc 2 = [(0, 0), (0, 1), (1, 1)] := by decide
+theorem fmc2 : fmc 2 = [(0, 0), (0, 1), (1, 0), (1, 1)] := by decide
+
+/-- HMC = FMC on the example, linear interpolation: `3 · 3/2 = 4 · 9/8` -/
+example : contactTfm (stdOps id) stdData (hmc 2) exG 3 exLk 0 1 .linear 0 0 = 3 / 2 ∧
+    contactTfm (stdOps id) stdData (fmc 2) exG 3 exLk 0 1 .linear 0 0 = 9 / 8 := by
+  constructor
+  · rw [contact_eq_sum, hmc2]
+    simp [weightOf, swap, pairTerm, pairLoc, interpOf, interpLinearB, exG, exLk, stdData]
+    norm_num
+  · rw [contact_eq_sum, fmc2]
+    simp [weightOf, swap, pairTerm, pairLoc, interpOf, interpLinearB, exG, exLk, stdData]
+    norm_num
+
+/-- nearest interpolation with two of the three HMC lookups out of the window (fill `0`):
+`3 · 1/3 = 4 · 1/4` -/
+example : contactTfm (stdOps id) stdData (hmc 2) exG 3 exLk 0 (1 / 4) .nearest 0 1 = 1 / 3 ∧
+    contactTfm (stdOps id) stdData (fmc 2) exG 3 exLk 0 (1 / 4) .nearest 0 1 = 1 / 4 := by
+  constructor
+  · rw [contact_eq_sum, hmc2]
+    simp [weightOf, swap, pairTerm, pairLoc, interpOf, interpNearest, roundHalfEven, exG, exLk]
+    norm_num
+    simp
+  · rw [contact_eq_sum, fmc2]
+    simp [weightOf, swap, pairTerm, pairLoc, interpOf, interpNearest, roundHalfEven, exG, exLk]
+    norm_num
+    simp
+
+/-- **`hmc_eq_fmc` is false for a non-zero fill value**: the fill of an out-of-window lookup is
+not weighted, so an off-diagonal out-of-window pair counts once in HMC and twice in FMC. Same
+data as above with fill `1`: both images are `1`, and `3 · 1 ≠ 4 · 1`. -/
+example : contactTfm (stdOps id) stdData (hmc 2) exG 3 exLk 0 (1 / 4) .nearest 1 1 = 1 ∧
+    contactTfm (stdOps id) stdData (fmc 2) exG 3 exLk 0 (1 / 4) .nearest 1 1 = 1 := by
+  constructor
+  · rw [contact_eq_sum_fill, hmc2]
+    simp [weightOf, swap, pairTerm, pairLoc, interpOf, interpNearest, roundHalfEven, exG, exLk]
+    norm_num
+    simp
+    norm_num
+  · rw [contact_eq_sum_fill, fmc2]
+    simp [weightOf, swap, pairTerm, pairLoc, interpOf, interpNearest, roundHalfEven, exG, exLk]
+    norm_num
+    simp
+    norm_num
+
+/-- reciprocal views on the FMC frame: both orders of the tables give `21/16` -/
+example : tfmForView (stdOps id) stdData (fmc 2) exG 3 exA exB 0 1 .linear 0 0 = 21 / 16 ∧
+    tfmForView (stdOps id) stdData (fmc 2) exG 3 exB exA 0 1 .linear 0 0 = 21 / 16 := by
+  constructor <;>
+  · unfold tfmForView
+    rw [das_frame_eq_sum, fmc2]
+    simp [pairTerm, pairLoc, interpOf, interpLinearB, exG, exA, exB, stdData]
+    norm_num
+    simp
+    norm_num
+
+/-- **closure under `tx ↔ rx` is needed** in `reciprocal_views_coincide`: on the HMC frame the
+two orders give `11/8` and `5/4` -/
+example : tfmForView (stdOps id) stdData (hmc 2) exG 3 exA exB 0 1 .linear 0 0 = 11 / 8 ∧
+    tfmForView (stdOps id) stdData (hmc 2) exG 3 exB exA 0 1 .linear 0 0 = 5 / 4 := by
+  constructor <;>
+  · unfold tfmForView
+    rw [das_frame_eq_sum, hmc2]
+    simp [pairTerm, pairLoc, interpOf, interpLinearB, exG, exA, exB, stdData]
+    norm_num
+    simp
+    norm_num
+
+/-- **so is the absence of duplicate pairs**: `[(0,1), (0,1), (1,0)]` is closed under
+`tx ↔ rx`, the two orders give `11/8` and `5/4` -/
+example :
+    tfmForView (stdOps id) stdData [(0, 1), (0, 1), (1, 0)] exG 3 exA exB 0 1 .linear 0 0 = 11 / 8 ∧
+    tfmForView (stdOps id) stdData [(0, 1), (0, 1), (1, 0)] exG 3 exB exA 0 1 .linear 0 0 = 5 / 4 := by
+  constructor <;>
+  · unfold tfmForView
+    rw [das_frame_eq_sum]
+    simp [pairTerm, pairLoc, interpOf, interpLinearB, exG, exA, exB, stdData]
+    norm_num
+
+/-- a problem for the spike test: HMC frame on 2 elements, 3 samples, `dt = 1/4` -/
+def exQ : Problem ℚ ℚ := frameProblem (hmc 2) (fun _ _ _ => 0) 3 exLk exLk 0 (1 / 4)
+
+/-- the arrival times of point `0` fall on the samples `0, 1, 2`: all in the window -/
+theorem exQ_win : ∀ k < exQ.N, 0 ≤ (stdOps id).round (locB (stdOps id) exQ 0 k) ∧
+    (stdOps id).round (locB (stdOps id) exQ 0 k) < (exQ.n : Int) := by
+  intro k hk
+  have hk' : k < 3 := hk
+  obtain rfl | rfl | rfl : k = 0 ∨ k = 1 ∨ k = 2 := by omega
+  all_goals
+    simp [exQ, locB, frameProblem, hmc2, exLk, roundHalfEven]
+    try norm_num
+
+example : dasNoAmp (stdOps id) stdData (spikeProblem (stdOps id) exQ 0) .nearest 0 0 = 1 :=
+  (spike_focus _ exQ 0 (by decide) exQ_win).1
+
+end Examples
 
 end Arim.C12
